@@ -200,7 +200,12 @@ def build(E):
                     b, o = slice_block(st.body), slice_block(st.orelse)
                     if b or o:
                         out.append(("if", st.test, b, o))
-                elif isinstance(st, (ast.With, ast.AsyncWith, ast.Try, ast.For, ast.While)):
+                elif isinstance(st, ast.Try):
+                    body, hs = slice_block(st.body), [slice_block(h.body) for h in st.handlers]
+                    tail = slice_block(st.orelse) + slice_block(st.finalbody)
+                    if body or any(hs) or tail:
+                        out.append(("try", st, body + tail, hs))
+                elif isinstance(st, (ast.With, ast.AsyncWith, ast.For, ast.While)):
                     inner = slice_block(getattr(st, "body", []))
                     if inner:
                         out.append(("opaque-block", st, inner, []))
@@ -257,7 +262,7 @@ def build(E):
                             e2 = dict(e)
                             v = absval(st.value, e) if st.value is not None else "None"
                             if tg.id == "use_pyopenssl":
-                                v = "bool?"
+                                v = str(st.value.value) if isinstance(st.value, ast.Constant) and isinstance(st.value.value, bool) else "bool?"
                             e2[tg.id] = v
                             nxt.append(e2)
                         else:
@@ -291,6 +296,15 @@ def build(E):
                                 e_f[a.id] = "False"
                             branches += run(o, e_f)
                         nxt += branches
+                    elif kind == "try":
+                        # the body may complete, or be abandoned at any point (then a handler runs from the entry state or from
+                        # a state in which the body's assignments happened) - an exception handler that lets start-up continue is
+                        # followed like any other path
+                        done_ = run(b, e)
+                        nxt += done_
+                        for h in o:
+                            for e_h in [e] + done_:
+                                nxt += run(h, dict(e_h))
                     else:
                         nxt += run(b, e)
                 envs = nxt
